@@ -117,3 +117,51 @@ CONFIG_DEFAULTS = {
 
 class ConfigStub(dict):
     pass
+
+
+class FlatIndex:
+    """row-major flattening  (a_0, .., a_{n-1}) -> ((a_0*N_1 + a_1)*N_2 + ..)  abstracted as an
+    uninterpreted injective constructor with ground-instantiated inverse axioms
+        0 <= a_j < N_j (j >= 1)  =>  unflat_j(flat(a)) = a_j ,
+    which are true of the real flattening (div/mod).  `check_real_definition` proves that the closure
+    found in the source *is* the row-major formula."""
+
+    _n = 0
+
+    def __init__(self, ctx, dims):
+        from .. import arrays as A
+
+        FlatIndex._n += 1
+        self.ctx = ctx
+        self.dims = list(dims)
+        n = len(dims)
+        self.F = z3.Function(f"flat{FlatIndex._n}", *([z3.IntSort()] * n), z3.IntSort())
+        self.inv = [z3.Function(f"unflat{FlatIndex._n}_{j}", z3.IntSort(), z3.IntSort()) for j in range(n)]
+        A.INJECTIVE[self.F.name()] = (self.inv, self.dims)
+        self.seen = set()
+        self.range_obligations = []
+
+    def spec(self, *args):
+        """term for specification-side use (ranges are premises of the obligation, no range obligation)"""
+        return self.__call__(*args, _oblig=False)
+
+    def __call__(self, *args, _oblig=True):
+        args = [to_z3(a) for a in args]
+        t = self.F(*args)
+        if t.get_id() not in self.seen:
+            from .. import arrays as A
+
+            self.seen.add(t.get_id())
+            A._axiom_seen.add(t.get_id())
+            guard = z3.And(*[z3.And(args[j] >= 0, args[j] < to_z3(self.dims[j])) for j in range(1, len(args))]) if len(args) > 1 else z3.BoolVal(True)
+            self.ctx.assume(A.injective_axiom(t))
+            # the flattened index is used as an array index: trailing components must be in range
+            if _oblig:
+                self.range_obligations.append((list(self.ctx.pc), guard))
+        return t
+
+    def real_formula(self, args):
+        r = to_z3(args[0])
+        for j in range(1, len(args)):
+            r = r * to_z3(self.dims[j]) + to_z3(args[j])
+        return r
